@@ -5,7 +5,7 @@ use std::ptr::NonNull;
 use std::{io, mem};
 
 use crate::analysis::facts::ProgramFacts;
-use crate::analysis::ids::{FunctionId, LocalId, StmtId};
+use crate::analysis::ids::{FunctionId, LocalId, ScopeId, StmtId};
 use crate::analysis::opt::OptimizationPlan;
 use crate::arena::{Arena, ArenaCow, ArenaString, PoolSet};
 use crate::arena_format;
@@ -293,6 +293,13 @@ pub struct Runtime<'a> {
     // Variable scopes, each Vec is a scope, inner Vec is variables in that scope.
     env: Vec<Vec<LocalSlot<'a>, &'a Arena>, &'a Arena>,
 
+    // The resolver scope each entry of `env` is an instance of, pushed and popped together with
+    // `env`. `None` for the root scope, for the parameter scope of a function without parameters
+    // and for every scope of a run without resolver facts. A resolved local is looked up in the
+    // most recent instance of its declaring scope only: older instances belong to other
+    // activations of the same function.
+    scope_ids: Vec<Option<ScopeId>, &'a Arena>,
+
     // Function scopes mirror lexical block scopes so lookup stays lexical.
     function_scopes: Vec<Vec<FunctionDef<'a>, &'a Arena>, &'a Arena>,
 
@@ -345,6 +352,7 @@ impl<'a> Runtime<'a> {
         let pool = PoolSet::new(arena);
         Self {
             env: Vec::new_in(arena),
+            scope_ids: Vec::new_in(arena),
             function_scopes: Vec::new_in(arena),
             output: Vec::new_in(arena),
             errors: Diagnostics::new(arena),
@@ -402,7 +410,7 @@ impl<'a> Runtime<'a> {
     fn run_inner(&mut self, root: BlockRef<'a>) {
         let anchor = 0u8;
         self.stack_base = &raw const anchor as usize;
-        self.push_scope_with_capacity(0, self.arena);
+        self.push_scope_with_capacity(0, self.arena, None);
 
         match self.exec_block_with_flow(root) {
             Ok(..) => {}
@@ -590,7 +598,8 @@ impl<'a> Runtime<'a> {
 
     #[inline]
     fn exec_block_with_flow(&mut self, block: BlockRef<'a>) -> Result<ExecFlow<'a>, RuntimeError> {
-        self.push_scope_with_capacity(0, self.frame);
+        let scope_id = self.facts().and_then(|facts| facts.scope_of_block(block));
+        self.push_scope_with_capacity(0, self.frame, scope_id);
         self.hoist_block_functions(block);
         for stmt in block.stmts {
             if self.stmt_is_pruned(stmt) {
@@ -657,6 +666,7 @@ impl<'a> Runtime<'a> {
     /// pool-managed strings in its variables.
     fn pop_scope(&mut self) {
         self.function_scopes.pop();
+        self.scope_ids.pop();
         if let Some(scope) = self.env.pop() {
             #[cfg(feature = "verif-hooks")]
             vtrace!("pop", scope.len(), 0);
@@ -905,7 +915,11 @@ impl<'a> Runtime<'a> {
         // Parameters live in their own lexical scope so block locals can shadow them.
         let param_ids = self.bound_param_ids(func_def.id, func_def.params);
         let has_frame = self.has_frame_arena();
-        self.push_scope_with_capacity(func_def.params.params.len(), self.frame);
+        // All parameters of a function are declared by one resolver scope of their own
+        let param_scope_id = param_ids.first().copied().flatten().and_then(|local| {
+            self.facts().map(|facts| facts.locals[local.0 as usize].declaring_scope)
+        });
+        self.push_scope_with_capacity(func_def.params.params.len(), self.frame, param_scope_id);
         let param_scope =
             self.env.last_mut().expect("Parameter scope should exist immediately after push");
         for ((param, maybe_local), arg) in
@@ -1660,13 +1674,13 @@ impl<'a> Runtime<'a> {
         let pool = &self.pool;
         let frame = self.frame;
 
-        for scope in self.env.iter_mut().rev() {
-            if let Some(slot) = scope.iter_mut().rev().find(|slot| slot.id == Some(local)) {
-                Self::overwrite_slot(&mut slot.value, val, has_frame, pool, frame);
-                return Ok(());
-            }
+        if let Some(index) = self.local_scope_index(local)
+            && let Some(slot) = self.env[index].iter_mut().rev().find(|slot| slot.id == Some(local))
+        {
+            Self::overwrite_slot(&mut slot.value, val, has_frame, pool, frame);
+            return Ok(());
         }
-        // The variable's `make` has not run yet in any live scope
+        // The variable's `make` has not run yet in the scope instance it belongs to
         Err(RuntimeError::new(RuntimeErrorKind::UndefinedVariable, span))
     }
 
@@ -1856,8 +1870,14 @@ impl<'a> Runtime<'a> {
         Ok(number as usize)
     }
 
-    fn push_scope_with_capacity(&mut self, var_capacity: usize, arena: &'a Arena) {
+    fn push_scope_with_capacity(
+        &mut self,
+        var_capacity: usize,
+        arena: &'a Arena,
+        scope_id: Option<ScopeId>,
+    ) {
         self.env.push(Vec::with_capacity_in(var_capacity, arena));
+        self.scope_ids.push(scope_id);
         self.function_scopes.push(Vec::new_in(arena));
     }
 
@@ -1872,14 +1892,20 @@ impl<'a> Runtime<'a> {
     }
 
     fn lookup_local_mut(&mut self, local: LocalId) -> Option<&mut Value<'a>> {
-        for scope in self.env.iter_mut().rev() {
-            for slot in scope.iter_mut().rev() {
-                if slot.id == Some(local) {
-                    return Some(&mut slot.value);
-                }
-            }
-        }
-        None
+        let index = self.local_scope_index(local)?;
+        self.env[index]
+            .iter_mut()
+            .rev()
+            .find_map(|slot| if slot.id == Some(local) { Some(&mut slot.value) } else { None })
+    }
+
+    /// Index in `env` of the scope instance a resolved local lives in: the most recent instance
+    /// of the scope that declares it. Searching the whole stack for the id instead would let a
+    /// hoisted function that runs before its activation's `make` silently use the variable of an
+    /// older activation of the same function.
+    fn local_scope_index(&self, local: LocalId) -> Option<usize> {
+        let declaring_scope = self.facts()?.locals[local.0 as usize].declaring_scope;
+        self.scope_ids.iter().rposition(|scope_id| *scope_id == Some(declaring_scope))
     }
 
     #[inline]
@@ -2001,12 +2027,11 @@ impl<'a> Runtime<'a> {
     }
 
     fn lookup_local_env(&self, local: LocalId) -> Option<&Value<'a>> {
-        self.env.iter().rev().find_map(|scope| {
-            scope
-                .iter()
-                .rev()
-                .find_map(|slot| if slot.id == Some(local) { Some(&slot.value) } else { None })
-        })
+        let index = self.local_scope_index(local)?;
+        self.env[index]
+            .iter()
+            .rev()
+            .find_map(|slot| if slot.id == Some(local) { Some(&slot.value) } else { None })
     }
 }
 
